@@ -293,7 +293,7 @@ WRITE_ONLY_DEFAULTS = {("xdis.unmarshal", "load_code", "code_objects"),
                        ("xdis.unmarshal", "_VersionIndependentUnmarshaller.__init__", "code_objects")}
 
 
-def _defaults_of(fn, modname, qual):
+def _defaults_of(fn):
     out = {}
     try:
         code = fn.__code__
@@ -301,54 +301,56 @@ def _defaults_of(fn, modname, qual):
         names = code.co_varnames[:code.co_argcount]
         for name, val in zip(names[len(names) - len(defaults):], defaults):
             if isinstance(val, (list, dict, set)):
-                if (modname, qual, name) in WRITE_ONLY_DEFAULTS:
-                    continue
-                out[name] = _canon_table_value(val)
+                out[name] = val
     except Exception:
         pass
     return out
 
 
+def _is_empty(v):
+    return isinstance(v, (list, tuple, set, frozenset, dict, str, bytes)) and len(v) == 0
+
+
 def module_state(mod):
-    """canonical form of the module-level tables of one xdis module"""
+    """flat {attribute path: (digest of canonical value, empty?)} of the module-level data of one xdis module:
+    module attributes, class attributes of classes defined there ("Class.attr") and mutable default
+    arguments of its functions/methods ("func(arg)")."""
     name = mod.__name__
     d = {}
+
+    def put(key, v):
+        d[key] = [digest(_canon_table_value(v)), bool(_is_empty(v))]
+
     for k in sorted(vars(mod)):
         if k.startswith("__") and k.endswith("__"):
             continue
-        if (name, k) in WRITE_ONLY:
-            continue
         v = vars(mod)[k]
         if isinstance(v, _DATA_TYPES):
-            d[k] = _canon_table_value(v)
+            put(k, v)
         elif isinstance(v, types.ModuleType):
             continue  # submodule attributes appear on a package when they are imported: not a table
         elif isinstance(v, types.FunctionType):
-            d[k] = ["func", v.__module__, v.__qualname__]
+            d[k] = [digest(["func", v.__module__, v.__qualname__]), False]
             if v.__module__ == name:
-                df = _defaults_of(v, name, v.__qualname__)
-                if df:
-                    d[k + "::defaults"] = df
+                for an, av in _defaults_of(v).items():
+                    put("%s(%s)" % (k, an), av)
         elif isinstance(v, type) and v.__module__ == name:
-            cd = {}
             for ck in sorted(vars(v)):
                 if ck.startswith("__") and ck.endswith("__") and ck != "__init__":
                     continue
                 cv = vars(v)[ck]
                 if isinstance(cv, _DATA_TYPES):
-                    cd[ck] = _canon_table_value(cv)
+                    put("%s.%s" % (k, ck), cv)
                 elif isinstance(cv, types.FunctionType):
-                    df = _defaults_of(cv, name, v.__qualname__ + "." + ck)
-                    if df:
-                        cd[ck + "::defaults"] = df
-            d[k] = ["class", cd]
+                    for an, av in _defaults_of(cv).items():
+                        put("%s.%s(%s)" % (k, ck, an), av)
         elif isinstance(v, type):
-            d[k] = ["class-ref", v.__module__, v.__qualname__]
+            d[k] = [digest(["class-ref", v.__module__, v.__qualname__]), False]
     return d
 
 
 def process_tables():
-    """{module name: digest} for every loaded xdis module, plus per-module detail on demand"""
+    """{module name: {attribute path: [digest, empty?]}} for every loaded xdis module"""
     out = {}
     for name in sorted(sys.modules):
         if name == "xdis" or name.startswith("xdis."):
@@ -356,10 +358,36 @@ def process_tables():
             if mod is None:
                 continue
             try:
-                out[name] = digest(module_state(mod))
+                out[name] = module_state(mod)
             except Exception as e:
-                out[name] = "ERR:%s" % type(e).__name__
+                out[name] = {"<error>": ["ERR:%s" % type(e).__name__, False]}
     return out
+
+
+def compare_tables(snapshot, current):
+    """Returns (violations, observations): lists of "module:attribute".
+
+    A *table* is module-level data that is non-empty in a fresh process (opcode maps, magic tables,
+    dispatch tables, flag names, ...): it must be identical.  Data that is empty in a fresh process
+    (memo caches, accumulators, mutable default arguments) or that did not exist there can only be
+    judged by its effect on results, which the refinement oracle does; its change is an observation."""
+    viol = []
+    obs = []
+    for mod in sorted(current):
+        snap = snapshot.get(mod)
+        if snap is None:
+            continue
+        cur = current[mod]
+        for attr in sorted(set(snap) | set(cur)):
+            a = snap.get(attr)
+            b = cur.get(attr)
+            if a is not None and b is not None and a[0] == b[0]:
+                continue
+            if a is not None and not a[1]:
+                viol.append("%s:%s" % (mod, attr))
+            else:
+                obs.append("%s:%s" % (mod, attr))
+    return viol, obs
 
 
 def diff_module_state(a, b):
